@@ -55,7 +55,9 @@ def impl(case):
     traj = synth.make_traj(case['m'], ['Li'] * c.shape[1], c)
     lengths = [float(v) for v in traj.get_lattice().lengths]
     res = min(case['res'], min(lengths))
+    guard = synth.InputGuard(trajectory=traj)
     vol = trajectory_to_volume(traj, resolution=res)
+    changed = guard.changed()
     pos = np.array(traj.positions).reshape(-1, 3)
     out = {'lengths': lengths, 'res': res, 'dims': [int(d) for d in vol.dims], 'data': vol.data.ravel().tolist(),
            'pos': (pos * DEN).tolist(), 'f2v': [vol.frac_coords_to_voxel(p).tolist() for p in pos[:6]],
@@ -76,6 +78,7 @@ def impl(case):
             rt_bad = [ax, int(n), int(np.argmax((back != allv).any(axis=1)))]
     out['v2f'] = v2f
     out['rt_bad'] = rt_bad
+    out['inputs_changed'] = changed
     return out
 
 
@@ -90,7 +93,7 @@ def oracle(case, out):
         if out.get('error') == 'AssertionError':
             return [('volume/assertion', f'trajectory_to_volume raised AssertionError: {out.get("tb", "")[-200:]}')]
         return [('c08/harness-error', f"{out.get('error')}: {out.get('msg')} {out.get('tb', '')[-400:]}")]
-    fs = []
+    fs = synth.inputs_clause(out, 'trajectory_to_volume')
     dims = out['dims']
     data = np.array(out['data']).reshape(dims)
     pos = np.rint(np.array(out['pos'])).astype(np.int64)
@@ -110,6 +113,11 @@ def oracle(case, out):
             edge = L / n
             if not (out['res'] * (1 - 1e-12) <= edge < 2 * out['res']):
                 fs.append(('volume/edge-length', f'voxel edge {edge} for requested resolution {out["res"]}'))
+    exact_len = [float(np.sqrt(sum(c * c for c in row))) for row in case['m']]
+    for k, (L, n, v) in enumerate(zip(exact_len, dims, out['vsize'])):
+        if abs(v - L / n) > 1e-12 * L:
+            fs.append(('volume/voxel-size', f'voxel_size[{k}] = {v} but cell length / grid size = {L} / {n} = {L / n} (lattice {case["m"]})'))
+            break
     for p, v in zip(pos[:6], out['f2v']):
         if [int((int(p[k]) * dims[k]) // DEN) for k in range(3)] != v:
             fs.append(('voxel/frac-to-voxel', f'frac_coords_to_voxel({[int(x) for x in p]}/4096) = {v} on grid {dims}'))
